@@ -647,6 +647,104 @@ func runC17Caps(c *kit.Ctx, k *keyer) {
 		c.Floor("R17.5", "webseedActiveDownloads increments", ni, 1)
 	}
 
+	// ---- R17.5b queued-upload counter moves only together with the queue
+	{
+		fCur := c.Field("internal/peerconn/peerwriter", "PeerWriter", "currentQueuedRequests")
+		fQueue := c.Field("internal/peerconn/peerwriter", "PeerWriter", "writeQueue")
+		nd := 0
+		for _, st := range fieldStores(c, fCur) {
+			v := kit.Canon(st.Val)
+			if v.Kind != "binop" || v.Op != token.SUB {
+				continue
+			}
+			nd++
+			fn := st.Fn
+			// one removal from the write queue licenses one decrement
+			removed := (&kit.Flow{P: c.Prog, Fn: fn, Instr: func(ins ssa.Instruction, in bool) bool {
+				if cc := kit.CallOf(ins); cc != nil && cc.StaticCallee() != nil && cc.StaticCallee().Name() == "Remove" && len(cc.Args) > 0 && kit.Canon(cc.Args[0]).IsField(fQueue) {
+					return true
+				}
+				if v2, ok := kit.StoresField(ins, fCur); ok && ins != ssa.Instruction(st.Store) {
+					_ = v2
+					return false
+				}
+				return in
+			}}).Solve()
+			c.Check(removed.Before(st.Store), "R17.5", k.key(fn, "dequeue accounting"), posOf(st.Store),
+				"queued-upload counter decremented only after a removal from the write queue on the same path", "currentQueuedRequests is decremented on a path that removed nothing from the write queue: the per-peer upload queue cap (MaxRequestsIn) no longer holds / the counter goes negative")
+		}
+		c.Floor("R17.5", "decrements of currentQueuedRequests", nd, 3)
+	}
+
+	// ---- R17.2b the budget is booked only when the grant has been communicated
+	{
+		fAvail := c.Field("internal/resourcemanager", "ResourceManager", "available")
+		nb := 0
+		for _, fn := range c.ModuleFunctions() {
+			if !strings.HasSuffix(kit.FnPkgPath(fn), "internal/resourcemanager") {
+				continue
+			}
+			var delivered *kit.Flow
+			kit.Instrs(fn, func(ins ssa.Instruction) {
+				st, ok := ins.(*ssa.Store)
+				if !ok {
+					return
+				}
+				fa, ok := st.Addr.(*ssa.FieldAddr)
+				if !ok || derefStructT(fa.X.Type()) == nil || derefStructT(fa.X.Type()).Field(fa.Field).Origin() != fAvail.Origin() {
+					return
+				}
+				v := kit.Canon(st.Val)
+				if v.Kind != "binop" || v.Op != token.SUB {
+					return
+				}
+				nb++
+				if delivered == nil {
+					delivered = c.AtomFlow(fn, func(a kit.Atom) bool {
+						if a.L.Kind != "extract" || a.L.Idx != 0 || a.Op != token.EQL {
+							return false
+						}
+						sel, ok := a.L.Args[0].V.(*ssa.Select)
+						if !ok {
+							return false
+						}
+						z, ok := a.R.IntConst()
+						return ok && z >= 0 && int(z) < len(sel.States) && sel.States[z].Dir == types.SendOnly
+					}, nil)
+				}
+				c.Check(delivered.Before(st), "R17.2", k.key(fn, "book reservation"), posOf(st),
+					"budget booked only in the select arm that delivered the grant to the requester", "the budget is decremented before / without the grant having been delivered: if the requester cancels instead, the reservation is booked for nobody and never released")
+			})
+		}
+		c.Floor("R17.2", "budget bookings in resourcemanager", nb, 2)
+	}
+
+	// ---- R17.6b bucket wiring: reads use the download bucket, writes the upload bucket
+	{
+		fDL := c.Field("torrent", "Session", "bucketDownload")
+		fUL := c.Field("torrent", "Session", "bucketUpload")
+		wire := func(owner *types.Var, want *types.Var, what string) {
+			n := 0
+			for _, st := range fieldStores(c, owner) {
+				n++
+				ok := true
+				var got []string
+				for _, o := range origins(c, st.Val, false, 5, nil) {
+					got = append(got, o.String())
+					if !(o.Kind == "field" && o.Field == want) {
+						ok = false
+					}
+				}
+				c.Check(ok && len(got) > 0, "R17.6", k.key(st.Fn, "wire "+what), posOf(st.Store),
+					what+" is Session."+want.Name(), what+" does not originate from Session."+want.Name()+" (origins: "+strings.Join(got, ", ")+"): the configured rate limit applies to the wrong direction")
+			}
+			c.Floor("R17.6", what+" stores", n, 1)
+		}
+		wire(c.Field("internal/peerconn/peerreader", "PeerReader", "bucket"), fDL, "PeerReader.bucket")
+		wire(c.Field("internal/peerconn/peerwriter", "PeerWriter", "bucket"), fUL, "PeerWriter.bucket")
+		wire(c.Field("internal/urldownloader", "URLDownloader", "bucket"), fDL, "URLDownloader.bucket")
+	}
+
 	// ---- R17.6 rate buckets
 	{
 		type site struct {
